@@ -325,6 +325,7 @@ def argOK : Arg → Prop
   | .phis incs => incs ≠ [] ∧ ∀ p ∈ incs, incOK p
   | .nums ks => ∀ k ∈ ks, k < 2 ^ 63
   | .align a => ∀ n ∈ a, n < 2 ^ 63
+  | .tyvals ixs => ∀ p ∈ ixs, operandOK p.2
 
 /-- the arguments fill the non-literal slots, in order -/
 inductive Matches : List Slot → List Arg → Prop
@@ -338,6 +339,7 @@ inductive Matches : List Slot → List Arg → Prop
   | phis (incs : List (Operand × Ident)) {fs : List Slot} {as : List Arg} : Matches fs as → Matches (.phis :: fs) (.phis incs :: as)
   | nums (ks : List Nat) {fs : List Slot} {as : List Arg} : Matches fs as → Matches (.nums :: fs) (.nums ks :: as)
   | align (a : Option Nat) {fs : List Slot} {as : List Arg} : Matches fs as → Matches (.align :: fs) (.align a :: as)
+  | tyvals (ixs : List (Ty × Operand)) {fs : List Slot} {as : List Arg} : Matches fs as → Matches (.tyvals :: fs) (.tyvals ixs :: as)
 
 theorem matches_nil (as : List Arg) (h : Matches [] as) : as = [] := by cases h; rfl
 
@@ -352,6 +354,7 @@ def opFollow : List Slot → Bool
   | .lit (32 :: 116 :: _) :: _ => true
   | [.nums] => true
   | [.align] => true
+  | [.tyvals] => true
   | _ => false
 
 def tyFollow : List Slot → Bool
@@ -373,6 +376,7 @@ def fmtOK : List Slot → Bool
   | .phis :: fs => fs.isEmpty
   | .nums :: fs => fs.isEmpty
   | .align :: fs => fs.isEmpty
+  | .tyvals :: fs => fs.isEmpty
 
 theorem endOK_print (useHex : Int → Bool) (cur : Ty) (fs : List Slot) (as : List Arg)
     (hs : startsComma fs = true) : endOK (printSlots useHex cur fs as) = true := by
@@ -405,6 +409,14 @@ theorem opEnd_print (useHex : Int → Bool) (cur : Ty) (fs : List Slot) (as : Li
       cases al with
       | none => simp [alignString, printSlots, opEnd]
       | some n => simp [alignString, sAlign, opEnd]
+  · cases as with
+    | nil => simp [printSlots, opEnd]
+    | cons a as' =>
+      cases a <;> try (simp [printSlots, opEnd])
+      rename_i ixs
+      cases ixs with
+      | nil => simp [tyvalsString, printSlots, opEnd]
+      | cons p ps => obtain ⟨t, o⟩ := p; simp [tyvalsString, sComma, opEnd]
   · cases hs
 
 theorem tyEnd_print (useHex : Int → Bool) (cur : Ty) (fs : List Slot) (as : List Arg)
@@ -453,6 +465,31 @@ theorem readNums_print : ∀ (ks : List Nat) (f : Nat), (∀ k ∈ ks, k < 2 ^ 6
       simp [sComma, TyParse.stripPrefix]
     rw [hs]
     simp only [readNums, hsp, h1, h2, parseUint63_natDec k (hk k (by simp)), ih, Option.map_some]
+
+theorem readTyvals_print (useHex : Int → Bool) : ∀ (ixs : List (Ty × Operand)) (f : Nat), (∀ p ∈ ixs, operandOK p.2) → ixs.length + 1 ≤ f →
+    readTyvals f (tyvalsString useHex ixs) = some ixs
+  | [], f, _, hf => by
+    obtain ⟨f', rfl⟩ : ∃ f', f = f' + 1 := ⟨f - 1, by simp at hf; omega⟩
+    simp [tyvalsString, readTyvals]
+  | (t, o) :: r, f, hk, hf => by
+    obtain ⟨f', rfl⟩ : ∃ f', f = f' + 1 := ⟨f - 1, by simp at hf; omega⟩
+    have ho : operandOK o := hk (t, o) (by simp)
+    have ih := readTyvals_print useHex r f' (fun x hx => hk x (by simp [hx])) (by simp at hf ⊢; omega)
+    have hend : opEnd (tyvalsString useHex r) = true := by
+      cases r with
+      | nil => simp [tyvalsString, opEnd]
+      | cons q qs => obtain ⟨t', o'⟩ := q; simp [tyvalsString, sComma, opEnd]
+    have hs : tyvalsString useHex ((t, o) :: r) = 44 :: 32 :: (tyString t ++ 32 :: (operandString useHex t o ++ tyvalsString useHex r)) := by
+      simp [tyvalsString, sComma]
+    have hsp : TyParse.stripPrefix sComma (44 :: 32 :: (tyString t ++ 32 :: (operandString useHex t o ++ tyvalsString useHex r)))
+        = some (tyString t ++ 32 :: (operandString useHex t o ++ tyvalsString useHex r)) := by
+      simp [sComma, TyParse.stripPrefix]
+    rw [hs]
+    simp only [readTyvals, hsp, tyval_step useHex t o _ ho, readOperand_operandString useHex t o _ ho hend, ih, Option.map_some]
+
+theorem tyvalsString_len (useHex : Int → Bool) : ∀ (ixs : List (Ty × Operand)), ixs.length ≤ (tyvalsString useHex ixs).length
+  | [] => by simp [tyvalsString]
+  | (t, o) :: r => by have := tyvalsString_len useHex r; simp [tyvalsString, sComma]; omega
 
 theorem numsString_len : ∀ (ks : List Nat), ks.length ≤ (numsString ks).length
   | [] => by simp [numsString]
@@ -548,6 +585,14 @@ theorem read_print_slots (useHex : Int → Bool) (fs : List Slot) (as : List Arg
     have hk : ∀ k ∈ ks, k < 2 ^ 63 := ha (.nums ks) (by simp)
     simp only [printSlots, readSlots, List.append_nil]
     rw [readNums_print ks _ hk (by have := numsString_len ks; omega)]
+  | @tyvals ixs fs' as' hm ih =>
+    intro cur hf ha
+    simp only [fmtOK, List.isEmpty_iff] at hf
+    subst hf
+    have := matches_nil as' hm; subst this
+    have hk : ∀ p ∈ ixs, operandOK p.2 := ha (.tyvals ixs) (by simp)
+    simp only [printSlots, readSlots, List.append_nil]
+    rw [readTyvals_print useHex ixs _ hk (by have := tyvalsString_len useHex ixs; omega)]
   | @align a fs' as' hm ih =>
     intro cur hf ha
     simp only [fmtOK, List.isEmpty_iff] at hf
